@@ -12,6 +12,7 @@ mod s_determ;
 mod s_engine;
 mod s_expr;
 mod s_exprparse;
+mod s_itemparse;
 mod s_keys;
 mod s_limits;
 mod s_macros;
@@ -53,6 +54,7 @@ fn main() {
         "keys" => s_keys::run(&opts),
         "termparse" => s_termparse::run(&opts),
         "exprparse" => s_exprparse::run(&opts),
+        "itemparse" => s_itemparse::run(&opts),
         "macros" => s_macros::run(&opts),
         "capi" => s_capi::run(&opts),
         "capi-child" => s_capi::child(&opts),
